@@ -12,6 +12,7 @@ mod fam_c18;
 mod fam_c19;
 mod fam_c20;
 mod fam_flow;
+mod mp;
 mod world;
 mod ffi;
 mod out;
